@@ -177,6 +177,7 @@ def run(res, tier, seed, replay_script=None):
 
     stats = {"states": 0, "skipped_incomplete": 0, "violations": 0, "max_err": {}, "local_grids": 0}
     lg_lines, lg_meta = [], {}
+    sq_lines = []
     fam_count, nontrivial = {}, 0
     for cid, steps in cases.items():
         spec = specs[cid]
@@ -209,6 +210,16 @@ def run(res, tier, seed, replay_script=None):
                     cur["lid"] = lid
                     cur["evalpts"] = st
                     continue    # judged after the model has classified the grid (parent completeness)
+                if fam == "sequence" and cur["n"] <= 70 and not cur.get("ta") and cur["coef"] and len(cur["points"]) == cur["n"] * d:
+                    # exact Newton surpluses from the implementation's own nodes (node of index m = coordinate of any point with that index)
+                    nodes = {}
+                    for i in range(cur["n"]):
+                        for j in range(d):
+                            nodes.setdefault(cur["pidx"][i * d + j], cur["points"][i * d + j])
+                    if nodes and max(nodes) + 1 == len(nodes):
+                        sq_lines.append("sq %s.%d %d %d nodes: %s pidx: %s vals: %s coef: %s" % (
+                            cid, si, d, outs, " ".join(nodes[m].hex() for m in range(len(nodes))), " ".join(map(str, cur["pidx"])),
+                            " ".join(v.hex() for v in cur["values"]), " ".join(v.hex() for v in cur["coef"])))
                 for tag in ("eval", "evalb", "evalf"):
                     y = st.obs.get(tag, [])
                     if len(y) != len(vals):
@@ -255,9 +266,10 @@ def run(res, tier, seed, replay_script=None):
     # ---- local polynomial grids: classify with the model, compare model and implementation
     mism = []
     lgres = {}
-    if runner and lg_lines:
+    sqres = {}
+    if runner and (lg_lines or sq_lines):
         lf = os.path.join(wd, "local.txt")
-        open(lf, "w").write("\n".join(lg_lines) + "\n")
+        open(lf, "w").write("\n".join(lg_lines + sq_lines) + "\n")
         rc2, mo, me = vlib.run([runner, lf], timeout=1500)
         for line in mo.split("\n"):
             t = line.split()
@@ -265,6 +277,8 @@ def run(res, tier, seed, replay_script=None):
                 continue
             if t[0] == "lg":
                 lgres[t[1]] = dict(x.split("=") for x in t[2:])
+            elif t[0] == "sq":
+                sqres[t[1]] = dict(x.split("=") for x in t[2:])
             elif t[0] == "MISMATCH":
                 mism.append(line[:300])
         if rc2 != 0:
@@ -304,6 +318,13 @@ def run(res, tier, seed, replay_script=None):
                 res.violation("not-reproduced:localp:" + tag, "%s differs from the loaded values by %.3g at a loaded point of a parent-complete grid [%s]" % (tag, err, scripts[cid][1]),
                               {"kind": "impl-counterexample", "script": scripts[cid], "error": err})
                 break
+    for sid, rr in sqres.items():
+        ce, ne = float.fromhex(rr["coeferr"]), float.fromhex(rr["nodeerr"])
+        stats["sequence_grids"] = stats.get("sequence_grids", 0) + 1
+        if ce > 1e-9:
+            mism.append("sequence grid %s: exact Newton surpluses differ from getHierarchicalCoefficients by %.3g [%s]" % (sid, ce, scripts[sid.split(".")[0]][1]))
+        if ne > 0.0:
+            mism.append("sequence grid %s: the model does not reproduce exactly (%.3g)" % (sid, ne))
     # local grids too large for the model: judged by the implementation's own parent table? (skipped and counted)
     if mism and not res.violations:
         res.violation("correspondence", "model and implementation disagree on %d local grids, e.g. %s" % (len(mism), mism[0][:300]),
@@ -323,7 +344,7 @@ def run(res, tier, seed, replay_script=None):
         "samples": [scripts[c] for c in list(scripts)[:2]],
         "programs": len(cases), "traces_validated_against_impl": stats["local_grids"], "disagreements_checked": len(mism),
         "family_distribution": fam_count, "max_relative_error_by_family": stats["max_err"], "tolerance_by_family": TOL,
-        "local_grids_modelled": stats["local_grids"], "local_grids_skipped_parent_incomplete": stats["skipped_incomplete"],
+        "local_grids_modelled": stats["local_grids"], "sequence_grids_modelled": stats.get("sequence_grids", 0), "local_grids_skipped_parent_incomplete": stats["skipped_incomplete"],
         "direct_property_violations": stats["violations"],
     })
     res.assumptions = ["floating-point rounding enters only through the tolerances (relative to max(1, max|value|))",
